@@ -290,17 +290,28 @@ GROUPS_MODEL = """
 def alphabet_models():
     """(name, xml): a few kinematic forests from the shared model alphabet with visible geoms and sites."""
     out = []
-    picks = [((-1,), ("hinge",)), ((-1, 0), ("free", "ball")), ((-1, -1, 0), ("slide", "hinge", "hinge+hinge")),
-             ((-1, 0, 1), ("ball", "slide+hinge", "none"))]
+    picks = [((-1,), ("hinge",)), ((-1, 0), ("free", "ball")), ((-1, -1, 0), ("slide", "hinge", "hinge2")),
+             ((-1, 0, 1), ("ball", "slidehinge", "none"))]
     for k, (parents, joints) in enumerate(picks):
-        try:
-            xml = alphabet.tree_mjcf(parents, joints, axis=2, anchor=1, frame=2, geom=("capsule", "box", "ellipsoid")[k % 3],
-                                     gattr='contype="0" conaffinity="0"')
-        except Exception:
-            continue
+        xml = alphabet.tree_mjcf(parents, joints, axis=2, anchor=1, frame=2, geom=("capsule", "box", "ellipsoid")[k % 3],
+                                 gattr='contype="0" conaffinity="0"')
         out.append(("tree%d" % k, xml))
     return out
 
 
+def kitchen_sink_notouch():
+    """the kitchen sink without the touch_grid plugin sensor: touch_grid.cc reads geom_bodyid[contact.geom] and flex
+    contacts have geom = -1 (out-of-bounds read, reported under C51), so states with flex contacts use this variant."""
+    s = KITCHEN_SINK
+    a = s.index('<plugin name="tg" plugin="mujoco.sensor.touch_grid"')
+    b = s.index("</plugin>", a) + len("</plugin>")
+    s = s[:a] + s[b:]
+    return s.replace('<plugin plugin="mujoco.sensor.touch_grid"/>', "").replace('model="kitchen-sink"', 'model="kitchen-sink-notouch"')
+
+
 def models():
     return [("kitchen-sink", KITCHEN_SINK), ("groups", GROUPS_MODEL)] + alphabet_models()
+
+
+def thorough_models():
+    return [("kitchen-sink-notouch", kitchen_sink_notouch())]
